@@ -50,8 +50,11 @@ static int run_cc (const char *cc_opt, const char *src, const char *so, char *er
     snprintf (dir, sizeof dir, "%s", so);
     slash = strrchr (dir, '/');
     if (slash) *slash = 0;
-    snprintf (cmd, sizeof cmd, "TMPDIR=%s gcc -std=gnu11 %s -fPIC -shared -w -fno-fast-math -ffp-contract=off %s -o %s %s 2> %s",
-        dir, cc_opt, inc, so, src, errfile);
+    /* cc_opt "clang:<options>" selects the second compiler (used to tell a miscompilation by one compiler from a defect of the source) */
+    const char *cc = "gcc";
+    if (!strncmp (cc_opt, "clang:", 6)) { cc = "clang-14"; cc_opt += 6; }
+    snprintf (cmd, sizeof cmd, "TMPDIR=%s %s -std=gnu11 %s -fPIC -shared -w -fno-fast-math -ffp-contract=off %s -o %s %s 2> %s",
+        dir, cc, cc_opt, inc, so, src, errfile);
   }
   st = system (cmd);
   err[0] = 0;
@@ -120,8 +123,14 @@ int cg_make (OrcProgram *p, const ProgSpec *ps, int variant, const char *cc_opt,
   }
   u->source = b.s;
 
-  snprintf (src, sizeof src, "%s/cg-%d.c", scratch_dir, (int) getpid ());
-  snprintf (so, sizeof so, "%s/cg-%d.so", scratch_dir, (int) getpid ());
+  /* a name of its own per unit: the dynamic loader recognises an object that is already loaded by device and inode, and an
+     unlinked file's inode number is handed out again */
+  {
+    static int serial;
+    serial++;
+    snprintf (src, sizeof src, "%s/cg-%d-%d.c", scratch_dir, (int) getpid (), serial);
+    snprintf (so, sizeof so, "%s/cg-%d-%d.so", scratch_dir, (int) getpid (), serial);
+  }
   f = fopen (src, "w");
   if (!f) { snprintf (u->err, sizeof u->err, "cannot write %s", src); return 3; }
   fputs (b.s, f);
